@@ -44,6 +44,9 @@ def waveforms():
         "interp": (["interp", T, [0.0, 5.0, 1.0, 3.0]], ["interp", T, [-3.0, 4.0, -1.0]]),
         "composite": (["comp", ["const", 16, 2.0], ["ramp", 24, 2.0, 0.5]], ["comp", ["ramp", 16, 0.0, 3.0], ["const", 24, 3.0]]),
         "steep_end": (["ramp", T, 0.0, 12.0], ["const", T, 0.0]),
+        # exactly two equal samples at an end, the third differs (flat first / last interval of the interpolant)
+        "flat_end": (["comp", ["ramp", T - 2, 1.0, 5.0], ["const", 2, 5.0]], ["comp", ["ramp", T - 2, -3.0, 7.0], ["const", 2, 7.0]]),
+        "flat_start": (["comp", ["const", 2, 4.0], ["ramp", T - 2, 3.0, 0.5]], ["comp", ["const", 2, -2.0], ["ramp", T - 2, -1.0, 6.0]]),
     }
 
 
@@ -57,7 +60,7 @@ NOISES = [
     {"kind": "spam", "mask": [0, 1, 0]},
     {"kind": "spam", "mask": [1, 0, 1]},
 ]
-DTS = {"quick": [0.25, 0.5, 1, 2.5, 10, T], "thorough": [0.1, 0.25, 0.3, 0.5, 1, 2.5, 3, 7, 10, 16, T, 2 * T]}
+DTS = {"quick": [0.25, 0.5, 0.7, 1, 2.5, 10, T], "thorough": [0.1, 0.25, 0.3, 0.5, 0.7, 1, 2.5, 3, 7, 10, 16, T, 2 * T]}
 
 
 def bounds(tier, seed):
@@ -67,7 +70,7 @@ def bounds(tier, seed):
         "noise": NOISES,
         "modulation": [False, True],
         "dt": DTS[tier],
-        "eval_sets": "[1], [(T-0.5)/T, 1], [(T-0.25)/T], [0, 1/3, 1]",
+        "eval_sets": "[1], [(T-0.5)/T, 1], [(T-0.25)/T], [0, 1/3, 1], [(T-1.5)/T, (T-0.3)/T]",
         "atoms": 3,
     }
 
@@ -114,7 +117,7 @@ def _noise(nz):
 
 
 def _evalsets(Tdur):
-    return [[1.0], [(Tdur - 0.5) / Tdur, 1.0], [(Tdur - 0.25) / Tdur], [0.0, 1 / 3, 1.0]]
+    return [[1.0], [(Tdur - 0.5) / Tdur, 1.0], [(Tdur - 0.25) / Tdur], [0.0, 1 / 3, 1.0], [(Tdur - 1.5) / Tdur, (Tdur - 0.3) / Tdur]]
 
 
 def run_case(case):
